@@ -134,6 +134,11 @@ def broadcastAxes {β : Type} (ndim : Nat) (l : List β) : Option (List β) :=
   let r := l.flatMap (fun x => List.replicate (ndim / l.length) x)
   if r.length = ndim then some r else none
 
+/-- the `origin` / `sampling_rate` *setters* of an existing object: `x = np.repeat(np.asarray(x), ndim // x.size)` and, unlike
+`__init__`, no size test (`none` = `ZeroDivisionError` for an empty argument). -/
+def setterAxes {β : Type} (ndim : Nat) (l : List β) : Option (List β) :=
+  if l.length = 0 then none else some (l.flatMap (fun x => List.replicate (ndim / l.length) x))
+
 /-! ## trim_box -/
 
 section trim
@@ -308,6 +313,70 @@ def traceFrom (d : Dens α β) : List (Op α) → List Nat → Option (List Nat)
 
 end hist
 
+
+/-! ## point clouds, `empty`, centre of mass, `to_memmap` / `to_numpy` (deepen3) -/
+
+section cloud
+variable {α : Type} [LT α] [DecidableLT α]
+
+/-- `Density.to_pointcloud(threshold)`: `np.array(np.where(data > threshold))` — the indices above the
+threshold in row-major order (numpy returns them transposed: one row per axis). -/
+def toPointcloud (a : Arr α) (thr : α) : List (List Nat) :=
+  (allIdx a.shape).filter (fun idx => decide (thr < a.getD idx thr))
+
+end cloud
+
+/-- `Density.empty`: `np.zeros_like(data)`, origin and sampling rate copied.  `Density.rigid_transform`
+starts from `self.empty` and only fills the data (interpolation, not modelled): its box bookkeeping is this. -/
+def Dens.empty {α β : Type} [Zero α] (d : Dens α β) : Dens α β :=
+  ⟨Arr.ofFn d.data.shape (fun _ => 0), d.frame⟩
+
+/-- `where(arr > cutoff, arr, 0)` on one value; `cutoff=None` means `min(arr) - 1`, i.e. every voxel keeps its value. -/
+def comV (cutoff : Option Int) (v : Int) : Int :=
+  match cutoff with
+  | none => v
+  | some c => if c < v then v else 0
+
+/-- weight of a voxel in `center_of_mass(arr, cutoff)` -/
+def comW (a : Arr Int) (cutoff : Option Int) (idx : List Nat) : Int := comV cutoff (a.getD idx 0)
+
+/-- `denominator = sum(arr)` -/
+def comDen (a : Arr Int) (cutoff : Option Int) : Int :=
+  ((allIdx a.shape).map (comW a cutoff)).sum
+
+/-- numerator of the centre of mass on axis `ax`: `sum(arr * grid_ax)` -/
+def comNum (a : Arr Int) (cutoff : Option Int) (ax : Nat) : Int :=
+  ((allIdx a.shape).map (fun idx => comW a cutoff idx * ((idx.getD ax 0 : Nat) : Int))).sum
+
+/-- `Density.center_of_mass(arr, cutoff)` for integer-valued data as exact fractions: numerators per axis and
+the common denominator (the library divides in floating point; `0` denominator = nan / inf there). -/
+def centerOfMass (a : Arr Int) (cutoff : Option Int) : List Int × Int :=
+  ((List.range a.shape.length).map (comNum a cutoff), comDen a cutoff)
+
+/-! ## `core_mask`: iterated binary erosion -/
+
+/-- `scipy.ndimage.binary_erosion(mask)` with its defaults: cross-shaped structuring element (the voxel and its two
+neighbours on every axis), everything outside the array counts as background (`border_value=0`). -/
+def erode (m : Arr Bool) : Arr Bool :=
+  Arr.ofFn m.shape (fun idx =>
+    m.getD idx false &&
+    (List.range m.shape.length).all (fun ax =>
+      let i := idx.getD ax 0
+      decide (0 < i) && m.getD (idx.set ax (i - 1)) false && m.getD (idx.set ax (i + 1)) false))
+
+/-- `while eroded_mask.sum() > 0: core_indices += eroded_mask; eroded_mask = binary_erosion(eroded_mask)` -/
+def coreLoop : Nat → Arr Bool → Arr Nat → Arr Nat
+  | 0, _, acc => acc
+  | f + 1, m, acc =>
+      if m.data.toList.any id then
+        coreLoop f (erode m) (Arr.ofFn acc.shape (fun idx => acc.getD idx 0 + (if m.getD idx false then 1 else 0)))
+      else acc
+
+/-- `Density.core_mask()`: how many erosions a voxel of `data > 0` survives (the loop ends after at most as many rounds
+as there are voxels: every round removes at least one). -/
+def coreMask (a : Arr Int) : Arr Nat :=
+  coreLoop (prodL a.shape + 1) (Arr.ofFn a.shape (fun idx => decide (0 < a.getD idx 0))) (Arr.ofFn a.shape (fun _ => 0))
+
 /-! ## a tiny heap for `__init__`, `copy`, `empty`, `adjust_box` — which buffers are fresh -/
 
 structure Heap (γ : Type) where
@@ -362,6 +431,15 @@ def adjustD (h : Heap γ) (d : DRef) : Heap γ × DRef :=
   let (h1, x) := h.alloc (h.read d.data)
   let (h2, o) := h1.alloc (h1.read d.origin)
   (h2, { d with data := x, origin := o })
+
+/-- `Density.to_memmap` (data not yet a memmap) / `Density.to_numpy` (data a memmap): the data are written to a
+new buffer with equal content; `origin`, `sampling_rate`, `metadata` stay the same objects.  When the data already
+are of the requested kind nothing changes (`fresh = false`). -/
+def remapD (h : Heap γ) (d : DRef) (fresh : Bool) : Heap γ × DRef :=
+  if fresh then
+    let (h1, x) := h.alloc (h.read d.data)
+    (h1, { d with data := x })
+  else (h, d)
 
 end heap
 
